@@ -17,7 +17,8 @@ def work(chunk):
 if __name__ == "__main__":
     if hasattr(mod, "init_worker"): mod.init_worker()
     cases = mod.cases(tier, 0)
-    chunks = [cases[i:i + 300] for i in range(0, len(cases), 300)]
+    CH = int(sys.argv[3]) if len(sys.argv) > 3 else 300
+    chunks = [cases[i:i + CH] for i in range(0, len(cases), CH)]
     groups = collections.defaultdict(list)
     with mp.get_context("fork").Pool(16, maxtasksperchild=8) as pool:
         for res in pool.imap_unordered(work, chunks):
